@@ -182,6 +182,8 @@ def gen_spec(rng, *, random_units=True, sl_bias=0.35, rules=None, currents=None,
                      'speed': in_unit(rng, 'AngularSpeed', dy(rng, -3, 3) if rng.random() > 0.15 else 0.0, ru)},
             'rules': None, 'ops': []}
     angle_init(rng, spec['init'])
+    if want_sl and rng.random() < 0.12:
+        motor['pwm0'] = 0.0      # a self-locking drive whose motor is switched off from the start
     if ru and rng.random() < 0.15:
         spec['load']['units'] = rng.sample(list(SI['Torque'].keys()), rng.randint(2, 3))      # answers in changing units
     if rng.random() < 0.15:
